@@ -24,6 +24,7 @@ import (
 	"path/filepath"
 	"strings"
 	"sync"
+	"sync/atomic"
 	"time"
 
 	"github.com/facebookincubator/dns/dnsrocks/dnsdata/cdb"
@@ -408,7 +409,9 @@ func runBuckets(c *bucketCase) {
 
 // ---------------------------------------------------------------- child process for BatchNumParallel <= 0
 
-var childTimeout = 25 * time.Second
+// generous, because the machine may be busy; after the first hang the later ones get little time
+var childTimeout = 90 * time.Second
+var hangSeen int32
 
 func childMain(spec string) {
 	// child:<in>:<dir>:<workers>:<bs>:<par>:<v2>
@@ -432,7 +435,11 @@ func compileInChild(in, out string, cfg complib.Cfg, s setting) error {
 	if err != nil {
 		return err
 	}
-	ctx, cancel := context.WithTimeout(context.Background(), childTimeout)
+	to := childTimeout
+	if atomic.LoadInt32(&hangSeen) != 0 {
+		to = 5 * time.Second
+	}
+	ctx, cancel := context.WithTimeout(context.Background(), to)
 	defer cancel()
 	v2 := 0
 	if cfg.V2 {
@@ -442,7 +449,8 @@ func compileInChild(in, out string, cfg complib.Cfg, s setting) error {
 	o, rerr := cmd.CombinedOutput()
 	switch {
 	case ctx.Err() != nil:
-		return fmt.Errorf("HANG: no result within %v", childTimeout)
+		atomic.StoreInt32(&hangSeen, 1)
+		return fmt.Errorf("HANG: no result within %v", to)
 	case strings.Contains(string(o), "CHILD-DONE"):
 		return nil
 	case strings.Contains(string(o), "CHILD-ERR"):
